@@ -139,12 +139,45 @@ def authz_cases(ctx, w, table, full: bool):
                 if k not in seen:
                     seen[k] = nf
             for k in sorted(seen):
-                out.append((row, role, seen[k]))
+                out.append((row, role, seen[k], "minimal"))
+            # widened parameter sets: for every mutating row, every role that is below the documented
+            # one on that request (and every caller of a `self` row) also sends the bodies it can build
+            # from what it legitimately obtains – on the vectors that present every credential it owns
+            # (quick) or on every vector (thorough)
+            if row["mutates"]:
+                for k in sorted(seen):
+                    f = seen[k]
+                    if not (py_lesser(row, role, f) or row["kind"] == "self"):
+                        continue
+                    if not full and not _presents_everything(w, row, role, f):
+                        continue
+                    for ov in rq.OVERLAYS[1:]:
+                        out.append((row, role, f, ov))
     return out
 
 
-def case_json(row, role, flags):
-    return {"route": row["route"], "method": row["method"], "role": role, "flags": _flagkey(flags)}
+def _presents_everything(w, row, role, f) -> bool:
+    """the vector of a request that shows every credential and the best token the role can have"""
+    import c15_requests as rq
+    if not f["targetExists"]:
+        return False
+    kinds = {g["g"] for g in rq.chain(row)}
+    if role != "anonymous" and "login" in kinds and not f["sendsSession"]:
+        return False
+    if ({"jwt", "jwtlogin", "selforadmin"} & kinds) and not f["sendsJwt"]:
+        return False
+    svc = rq.csrf_service(row)
+    if svc is not None:
+        if not f["csrfPresent"]:
+            return False
+        if svc in w.sessions[role].csrf and not f["csrfOk"]:
+            return False
+    return True
+
+
+def case_json(row, role, flags, overlay="minimal"):
+    return {"route": row["route"], "method": row["method"], "role": role, "flags": _flagkey(flags),
+            "overlay": overlay}
 
 
 def case_from_json(table, j):
@@ -153,7 +186,7 @@ def case_from_json(table, j):
     if row is None:
         return None
     flags = {n: c == "1" for n, c in zip(rq.FLAG_NAMES, j["flags"])}
-    return row, j["role"], flags
+    return row, j["role"], flags, j.get("overlay", "minimal")
 
 
 def py_lesser(row, role, flags) -> bool:
@@ -174,14 +207,26 @@ def py_lesser(row, role, flags) -> bool:
     raise ValueError(kind)
 
 
-def run_authz_case(w, row, role, flags):
+def run_authz_case(w, row, role, flags, overlay="minimal"):
     import c15_requests as rq
-    obs = rq.execute(w, row, role, flags)
+    obs = rq.execute(w, row, role, flags, overlay)
     fail = None
     if py_lesser(row, role, flags) and obs["changed"]:
         fail = {"channel": "authz", "clause": "a role below the documented one changed persistent state",
-                "case": case_json(row, role, flags), "documented": row["kind"], "changed": obs["changed"],
+                "case": case_json(row, role, flags, overlay), "documented": row["kind"], "changed": obs["changed"],
+                "changed_user_rows": obs["changed_users"],
                 "status": obs["status"], "request": obs["request"], "handler": row["impl"]}
+    elif row["kind"] == "self" and role != "admin" and obs["changed"]:
+        # "the user themself for their own account": a non-admin caller may change its own User row, nothing else
+        own = w.sessions[role].pk
+        others = [pk for pk in obs["changed_users"] if pk != own]
+        tables = [t for t in obs["changed"] if t != "User"]
+        if others or tables:
+            fail = {"channel": "authz",
+                    "clause": "a non-admin caller changed state other than its own account",
+                    "case": case_json(row, role, flags, overlay), "documented": row["kind"],
+                    "changed": obs["changed"], "changed_user_rows": obs["changed_users"], "own_pk": own,
+                    "status": obs["status"], "request": obs["request"], "handler": row["impl"]}
     return obs, fail
 
 
@@ -191,10 +236,13 @@ def authz_channel(ctx, w, table) -> Channel:
         "one real HTTP request per (table row, role, flag vector) against the booted application with the "
         "database and blob store restored to the snapshot first; compared with the Lean guard model: body "
         "entered <-> verdict pass/block, status of the stopping guard, block => fingerprints unchanged; "
-        "non-trivial = the row has at least one guard and the request reaches a guard verdict other than "
-        "the trivial 'no guard'; distinct by (route, method, role, flags)"))
+        "mutating rows x lesser roles (and every caller of a `self` row) additionally with parameter overlays "
+        "built from what the role can obtain (own account fields incl. its pk in the BODY against another "
+        "identifier in the URL, ids of other readable objects, full form of the target as the role reads it, "
+        "victim ids in the body against the own URL); for `self` rows only the caller's own User row may change; "
+        "non-trivial = the row has at least one guard; distinct by (route, method, role, flags, overlay)"))
     cases = authz_cases(ctx, w, table, ctx.thorough)
-    lines = [rq.model_line(r, role, f) for r, role, f in cases]
+    lines = [rq.model_line(r, role, f) for r, role, f, _ in cases]
     try:
         model = common.run_driver(lines)
     except Exception as e:
@@ -205,15 +253,16 @@ def authz_channel(ctx, w, table) -> Channel:
     pairs = set()
     import importlib.util
     can_async = importlib.util.find_spec("asgiref") is not None
-    for (row, role, flags), mo in zip(cases, model):
+    for (row, role, flags, overlay), mo in zip(cases, model):
         ch.evaluations += 1
         try:
-            obs, fail = run_authz_case(w, row, role, flags)
+            obs, fail = run_authz_case(w, row, role, flags, overlay)
         except Exception as e:
-            ch.errors.append(f"{case_json(row, role, flags)}: {type(e).__name__}: {e}")
+            ch.errors.append(f"{case_json(row, role, flags, overlay)}: {type(e).__name__}: {e}")
             continue
         pairs.add((row["route"], row["method"], role))
-        cj = case_json(row, role, flags)
+        cj = case_json(row, role, flags, overlay)
+        ch.count(f"parameters|{overlay}")
         if fail:
             ch.oracle_failures.append(fail)
         if mo == "driver-error" or mo == "bad-op":
@@ -242,7 +291,7 @@ def authz_channel(ctx, w, table) -> Channel:
         if obs["changed"] and not py_lesser(row, role, flags):
             witnessed.add((row["route"], row["method"]))
         if rq.chain(row):
-            ch.nontrivial.add((row["route"], row["method"], role, _flagkey(flags)))
+            ch.nontrivial.add((row["route"], row["method"], role, _flagkey(flags), overlay))
         cls = "stopped" if not obs["entered"] else ("changed" if obs["changed"] else "entered-unchanged")
         ch.count(f"{row['method']}|{role}|{cls}")
         ch.count(f"verdict|{verdict.split(':')[0]}")
@@ -673,23 +722,28 @@ def search(ctx, disagreements):
                 first.append(c)
     tried = set()
 
-    def attempt(row, role, flags):
+    def attempt(row, role, flags, overlays=None):
         import c15_requests as rq
         nf = rq.normalise(w, row, role, flags)
         if nf is None:
             return None
-        k = (row["route"], row["method"], role, _flagkey(nf))
-        if k in tried:
-            return None
-        tried.add(k)
-        _, fail = run_authz_case(w, row, role, nf)
-        return fail
+        if overlays is None:
+            overlays = rq.OVERLAYS if (row["mutates"] or row["method"] not in ("GET", "HEAD")) else ["minimal"]
+        for ov in overlays:
+            k = (row["route"], row["method"], role, _flagkey(nf), ov)
+            if k in tried:
+                continue
+            tried.add(k)
+            _, fail = run_authz_case(w, row, role, nf, ov)
+            if fail:
+                return fail
+        return None
 
-    for row, role, flags in first:
-        f = attempt(row, role, flags)
+    for row, role, flags, ov in first:
+        f = attempt(row, role, flags, [ov]) or attempt(row, role, flags)
         if f:
             return f
-    rows_first = [r for r, _, _ in first]
+    rows_first = [r for r, _, _, _ in first]
     vectors = _vectors()
     # 2. every row the table calls mutating or whose kind is documented, then all rows: all roles × all vectors
     ordered = rows_first + [r for r in table["rows"] if r["mutates"]] + \
@@ -732,10 +786,11 @@ def replay(ctx, payload):
         if c is None:
             return {"fails": False, "note": "route/method no longer exists", "case": f["case"]}
         w = c15_world.world()
-        row, role, flags = c
-        obs, fail = run_authz_case(w, row, role, flags)
-        return {"fails": bool(fail), "case": f["case"], "documented": row["kind"], "status": obs["status"],
-                "body_entered": obs["entered"], "changed": obs["changed"], "request": obs["request"]}
+        row, role, flags, overlay = c
+        obs, fail = run_authz_case(w, row, role, flags, overlay)
+        return {"fails": bool(fail), "clause": fail["clause"] if fail else None, "case": f["case"],
+                "documented": row["kind"], "status": obs["status"], "body_entered": obs["entered"],
+                "changed": obs["changed"], "changed_user_rows": obs["changed_users"], "request": obs["request"]}
     if "http_replay" in f:
         w = c15_world.world()
         h = f["http_replay"]
